@@ -145,3 +145,34 @@ Print Assumptions C13_can_close_account_no_miss_semantic_partial.
 Print Assumptions C13_is_updatable_no_miss_semantic_partial.
 Print Assumptions C13_verdict_independent_of_listing_order.
 Print Assumptions C13_listing_order_needs_distinct_ids_refuted.
+
+(* ------------------------------------------------------------------------------------------------------------
+   Extension (third round): further code regenerated from the Python source with equivalence lemmas *)
+From Coq Require Import List String NArith ZArith Bool Arith.
+From Tealer Require Import Tables Leaves LeafPrelude Syntax Parse Cfg StackAst Keys KeysGen Analysis Domains Detect Regex Group AssertedGen GraphGen SearchGen ConstraintsGen RegexGen GroupGen GraphGenLemmas TotalSolver GroupLemmas RegexLemmas ConstraintsGenLemmas RegexGenLemmas GroupGenLemmas.
+
+(* the group-mode verdict REGENERATED from detectors/utils.py and transactions.py (tools/translate_group.py -> Gen/GroupGen.v) equals the model's verdict on every well-formed group with distinct ids *)
+Theorem C13_regenerated_verdict_equals_model :
+  forall (funcs : list (func * fn_result)) (checks : bctx -> bool) (dtype : string) (vtypes : option (list string)) 
+         (group : list gtxn) (t : gtxn),
+       group_ok funcs group ->
+       In t group -> txn_vulnerable_gen funcs checks dtype vtypes group t = Some (txn_vulnerable funcs checks dtype vtypes group t).
+Proof. exact @txn_vulnerable_gen_eq. Qed.
+
+(* ... hence the reported ids are exactly the eligible, uncleared transactions *)
+Theorem C13_regenerated_verdict_spec :
+  forall (funcs : list (func * fn_result)) (checks : bctx -> bool) (dtype : string) (vtypes : option (list string)) 
+         (group : list gtxn) (ids : list string),
+       dtype = "STATELESS" \/ dtype = "STATEFULL" ->
+       group_ok funcs group ->
+       group_verdict_gen funcs checks dtype vtypes group = Some ids ->
+       forall id : string,
+       In id ids <->
+       (exists t : gtxn,
+          In t group /\
+          g_id t = id /\
+          eligible dtype vtypes t /\ ~ own_cleared funcs checks t /\ ~ abs_cleared funcs checks group t /\ ~ rel_cleared funcs checks group t).
+Proof. exact @group_verdict_gen_spec. Qed.
+
+Print Assumptions C13_regenerated_verdict_equals_model.
+Print Assumptions C13_regenerated_verdict_spec.
